@@ -123,3 +123,43 @@ def data_listed_file_is_valid_manifest(sc, v):
             except Exception:
                 pass
     return False
+
+
+def fails_without_regular_file_named_files(sc, v):
+    """AUXPLACE is the cause only if the same failure remains once every
+    regular file that is itself called 'files' is taken out of the scenario
+    (the file-named-'files' case was repaired, see KF-D8-FILES; a failure
+    that needs such a file is a different defect)."""
+    import copy
+    import importlib
+    def is_ff(t):
+        return t.get('k', 'file') == 'file' and os.path.basename(t.get('p', '')) == 'files'
+    sc2 = copy.deepcopy(sc)
+    changed = False
+    for key in ('tree', 'odd', 'late_odd', 'edits'):
+        if isinstance(sc2.get(key), list):
+            n = len(sc2[key])
+            sc2[key] = [t for t in sc2[key] if not is_ff(t)]
+            changed = changed or len(sc2[key]) != n
+    for r in sc2.get('rounds', []):
+        n = len(r.get('edits', []))
+        r['edits'] = [t for t in r.get('edits', []) if not is_ff(t)]
+        changed = changed or len(r['edits']) != n
+    if not changed:
+        return True
+    mod = importlib.import_module('sim.props.' + sc.get('prop', 'C18').lower())
+    res = mod.execute(sc2)
+    return any(x.get('sig') == v.get('sig') for x in res.get('violations', []))
+
+
+def no_regular_file_named_files(sc, v):
+    """AUXPLACE applies only when the tree has no regular file that is itself
+    called 'files' (that case was repaired; see fixed entry KF-D8-FILES)."""
+    specs = list(sc.get('tree', [])) + list(sc.get('odd', [])) + list(sc.get('late_odd', []))
+    for r in sc.get('rounds', []):
+        specs += r.get('edits', [])
+    specs += sc.get('edits', []) if isinstance(sc.get('edits'), list) else []
+    for t in specs:
+        if t.get('k', 'file') == 'file' and os.path.basename(t.get('p', '')) == 'files':
+            return False
+    return True
